@@ -75,12 +75,9 @@ def rule_route(ctx):
                 sorted(mf) == sorted(bk["rows"]) and sorted(mirror_str(c).replace("{Direction::Backward,Direction::Universal}", "{Direction::Backward,Direction::Universal}") for c, _ in f["conds"]) == sorted(c for c, _ in bk["conds"]),
                 site, "the backward problem is the mirror image of the forward problem under left<->right, forward<->backward")
     # decomposition dispatch
-    disp = []
-    for m in hq.matches_over(b["body"], "command_line::arguments::Decomposition"):
-        for a in m["arms"]:
-            cs = [hq.last(c) for c in (callee_generic(n) for n in walk(a["body"]) if n.get("k") == "MethodCall") if c]
-            disp.append((hq.pat_key(a["pat"]), cs))
-    ctx.add("FLOW-ROUTE", "decomposition", sorted(disp) == [("Decomposition::Independent", ["decompose_independent"]), ("Decomposition::Sequential", ["decompose_sequential"])],
+    from .. import tasks as _tasks
+    disp = _tasks.decomposition_dispatch(fx, b["body"])
+    ctx.add("FLOW-ROUTE", "decomposition", disp == [("Decomposition::Independent", ["decompose_independent"]), ("Decomposition::Sequential", ["decompose_sequential"])],
             site, "strategy dispatch: %s" % disp)
 
 
